@@ -452,10 +452,13 @@ impl Builder {
         let addr = addr.to_socket_addr().map_err(Into::into)?;
         match addr {
             SocketAddr::V4(addr) => {
-                if self
-                    .transports
-                    .iter()
-                    .any(|t| t.is_ipv4_default() && t.is_user_defined())
+                // Only a bind that is itself a default route can conflict with an existing
+                // default route: the outcome must not depend on the order of the binds.
+                if opts.is_default_route()
+                    && self
+                        .transports
+                        .iter()
+                        .any(|t| t.is_ipv4_default() && t.is_user_defined())
                 {
                     bail!(InvalidSocketAddr::DuplicateDefaultAddr);
                 }
@@ -473,10 +476,13 @@ impl Builder {
                 });
             }
             SocketAddr::V6(addr) => {
-                if self
-                    .transports
-                    .iter()
-                    .any(|t| t.is_ipv6_default() && t.is_user_defined())
+                // Only a bind that is itself a default route can conflict with an existing
+                // default route: the outcome must not depend on the order of the binds.
+                if opts.is_default_route()
+                    && self
+                        .transports
+                        .iter()
+                        .any(|t| t.is_ipv6_default() && t.is_user_defined())
                 {
                     bail!(InvalidSocketAddr::DuplicateDefaultAddr);
                 }
